@@ -23,11 +23,20 @@ func runC11(c *Ctx) {
 	if c.Thorough() {
 		n = int64(numForms) * 1024
 	}
-	c.Cases(n, func(idx int64, r *Rng) {
-		limited := idx%8 != 0 // 1/8 of the cases run with R=W=M for clause (c)
-		sc := genStepCase(idx, r, c.Thorough(), limited)
-		if !limited {
-			sc.R, sc.W = sc.M, sc.M
+	c.Cases(gridSize+n, func(idx int64, r *Rng) {
+		var sc *StepCase
+		limited := true
+		if idx < gridSize {
+			// the boundary grid: every form x A,B in {0,1,2,M-1} x limits (M,M) (1,M) (M,1) (1,1) (2,2) (M-1,*)
+			sc = genGridCase(idx, r)
+			limited = sc.R < sc.M || sc.W < sc.M
+			c.Inc("grid_cases")
+		} else {
+			limited = (idx-gridSize)%8 != 0 // 1/8 of the cases run with R=W=M for clause (c)
+			sc = genStepCase(idx-gridSize, r, c.Thorough(), limited)
+			if !limited {
+				sc.R, sc.W = sc.M, sc.M
+			}
 		}
 		if sc.M > 8000 {
 			sc.M = 8000
